@@ -50,6 +50,8 @@ pub fn idle_lines() -> Vec<&'static str> {
         "PRINT A(4294967296)",
         // a huge subscript on a later axis (its offset is the subscript times the earlier axes' size)
         "X=M(0,4611686018427387904): L(1,2,9223372036854775807)=5",
+        // an array nobody dimensioned, used with twenty subscripts
+        "PRINT Z(0,0,0,0,0,0,0,0,0,0,0,0,0,0,0,0,0,0,0,0)",
         "PRINT A(-1)",
         "PRINT 1/0",
         "PRINT RND(1)",
@@ -248,7 +250,7 @@ fn seeded_roots() -> Vec<Vec<Ev>> {
 fn atoms() -> Vec<&'static str> {
     vec![
         "PRINT", "INPUT", "IF", "THEN", "ELSE", "GOTO", "FOR", "NEXT", "X", "A$", "(", ")", ",",
-        "=", "<", "12", ".", "1.5.", "\"", "é", "%", " ", ":", "REM", "DATA", "DEF", "FNA", "-", "\u{a0}", "\u{ff12}", "\u{c}",
+        "=", "<", "12", ".", "1.5.", "\"", "é", "%", " ", ":", "REM", "DATA", "DEF", "FNA", "-", "\u{a0}", "\u{ff12}", "\u{c}", "\u{3000}",
     ]
 }
 
